@@ -58,3 +58,6 @@ func VerifHashToCoinIndex(hash [32]byte, stakedSupply uint64) uint64 {
 func (bc *Blockchain) VerifValidateMempoolTx(txn adb.Txn, tx *transaction.Transaction, hash [32]byte, previousEntries []*MempoolEntry, nextheight uint64) error {
 	return bc.validateMempoolTx(txn, tx, hash, previousEntries, nextheight)
 }
+
+// VerifMaxDeviation exposes the LTTC threshold constant of difficulty.go.
+const VerifMaxDeviation = maxDeviation
